@@ -197,7 +197,7 @@ def report_ext(r, tier):
 
 
 def parse_all(r, tier, big=True):
-    return (streams.bye_reason_lengths(r) + [x for x in streams.bye_empty_reason(r) if x[1]["op"] == "parse"] + streams.midsize_padded(r) + streams.congruent_lengths(r) + streams.length_patterns(r) + streams.sdes_many_chunks(r) + streams.sdes_priv_utf8(r) + report_ext(r, tier) + parse_typed(r, tier) + parse_custom(r, tier) + streams.sdes_short_bodies(r, tier)
+    return (streams.bye_reason_lengths(r) + [x for x in streams.bye_empty_reason(r) if x[1]["op"] == "parse"] + streams.midsize_padded(r) + streams.congruent_lengths(r) + streams.length_patterns(r) + streams.sdes_many_chunks(r) + streams.sdes_big_chunks(r) + streams.sdes_priv_utf8(r) + report_ext(r, tier) + parse_typed(r, tier) + parse_custom(r, tier) + streams.sdes_short_bodies(r, tier)
             + streams.sdes_wf_variants(r, 300 if tier == "quick" else 6000) + parse_compound(r, tier)
             + parse_fci(r, tier) + streams.rb_stream(r, tier) + (streams.big_inputs(r) if big else []))
 
